@@ -1,9 +1,8 @@
 (* C15 -- witnesses.  (1) Regression: the sequences on which the tree violated
-   the invariant before the repairs (d815d97 .. 71a6c5d, fb2ee00, c6d3509, d57f5bc, 0b78ced, 3441338, 6bdc56b) now keep the
-   full invariant in the model of the current code.  (2) Refutation: states
-   satisfying the full invariant and one operation after which the code as it
-   stands ([pinned]) still violates it; for the one with a proposed repair
-   (C15-13) the same operation keeps the invariant under [fixed].  All are replayed on the
+   the invariant before the repairs (d815d97 .. 71a6c5d, fb2ee00, c6d3509, d57f5bc, 0b78ced, 3441338, 6bdc56b, c8788a9, 17ba081) now keep the
+   full invariant in the model of the current code.  No operation of the model is left on which the
+   code as it stands violates the full invariant (the open defects concern
+   operations outside the model).  All are replayed on the
    real library by checks/C15.py. *)
 From Coq Require Import List NArith ZArith Bool.
 From GD Require Import C15.Order C15.NameTable.
@@ -98,10 +97,8 @@ Definition w_dotpar_op := OAdd false (Some [46; 97; 98]) x_ T_PHASE 0 false [[97
 Lemma w_dotpar : inv_full (fst (step pinned (w_dotpar_pre pinned) w_dotpar_op)) = true.
 Proof. vm. Qed.
 
-(* (2) still open *)
-(* cross-container: adding the target of a top-level alias below a parent leaves D->fl stale *)
+(* cross-container: adding the target of a top-level alias below a parent used to leave D->fl stale (c8788a9) *)
 Definition w_xcache_pre c := run c init_state [konst false None p_ 0; OAlias None al_ [112; 47; 120] 0; OList None S_ALL 0].
 Definition w_xcache_op := konst true (Some p_) x_ 0.
-Lemma w_xcache : inv_full (w_xcache_pre pinned) = true /\ cache_consistent (fst (step pinned (w_xcache_pre pinned) w_xcache_op)) = false
-  /\ inv_full (fst (step fixed (w_xcache_pre fixed) w_xcache_op)) = true.
+Lemma w_xcache : inv_full (w_xcache_pre pinned) = true /\ inv_full (fst (step pinned (w_xcache_pre pinned) w_xcache_op)) = true.
 Proof. repeat split; vm. Qed.
